@@ -1,9 +1,11 @@
 // pipes.hh — in-memory blocking byte pipes and iostream pairs for two-party
-// interactive protocols.  Each party runs in its own std::thread with its own
-// (thread-local) library random stream, so the outcome depends only on the
-// data exchanged, not on OS scheduling.  A read that cannot be satisfied
-// within `stall_ms` of real time closes the pipe (the protocol step then fails
-// cleanly); a closed write end gives EOF to the reader.
+// interactive protocols (optionally with a relaying man in the middle).  Each
+// party runs in its own std::thread with its own (thread-local) library random
+// stream, so the outcome depends only on the data exchanged, not on OS
+// scheduling.  A monitor detects the state "every live thread waits for input
+// and no data is in flight" (a protocol dead end, e.g. after a dropped message)
+// and closes the pipes so that the parties fail cleanly; a real-time stall
+// limit is the fallback.
 #pragma once
 #include <streambuf>
 #include <iostream>
@@ -14,16 +16,24 @@
 #include <functional>
 #include <chrono>
 #include <string>
+#include <atomic>
+#include <vector>
 #include "vf.hh"
 
 namespace vf {
+
+struct Pipe;
+struct Monitor {
+  std::atomic<int> blocked{0}, alive{0};
+  std::vector<Pipe *> pipes;
+  bool deadlocked();
+};
 
 struct Pipe {
   std::mutex mu; std::condition_variable cv;
   std::deque<char> q; bool closed = false; bool stalled = false;
   std::string log;            // everything ever written (for transcripts)
-  std::function<void(Pipe &)> on_write; // optional tap, called with mu held after each flush of a line
-  long stall_ms = 20000;
+  long stall_ms = 60000; Monitor *mon = nullptr;
   void write(const char *s, size_t n) {
     std::unique_lock<std::mutex> lk(mu);
     if (closed) return;
@@ -31,14 +41,31 @@ struct Pipe {
     cv.notify_all();
   }
   void close() { std::unique_lock<std::mutex> lk(mu); closed = true; cv.notify_all(); }
+  bool empty_unlocked() { std::unique_lock<std::mutex> lk(mu); return q.empty(); }
   // blocking read of one char; returns -1 at EOF
   int get() {
     std::unique_lock<std::mutex> lk(mu);
-    if (!cv.wait_for(lk, std::chrono::milliseconds(stall_ms), [&] { return !q.empty() || closed; })) { stalled = true; closed = true; cv.notify_all(); return -1; }
+    if (q.empty() && !closed) {
+      if (mon) mon->blocked++;
+      long waited = 0; int suspicious = 0;
+      while (q.empty() && !closed) {
+        cv.wait_for(lk, std::chrono::milliseconds(10)); waited += 10;
+        if (!q.empty() || closed) break;
+        if (mon) { lk.unlock(); bool d = mon->deadlocked(); lk.lock(); if (!q.empty() || closed) break; if (d) { if (++suspicious >= 3) { stalled = true; closed = true; break; } } else suspicious = 0; }
+        if (waited >= stall_ms) { stalled = true; closed = true; break; }
+      }
+      if (mon) mon->blocked--;
+      cv.notify_all();
+    }
     if (q.empty()) return -1;
     char c = q.front(); q.pop_front(); return (unsigned char)c;
   }
 };
+inline bool Monitor::deadlocked() {
+  if (alive.load() == 0 || blocked.load() < alive.load()) return false;
+  for (Pipe *p : pipes) if (!p->empty_unlocked()) return false;
+  return blocked.load() >= alive.load();
+}
 
 struct PipeBuf : public std::streambuf {
   Pipe *rd, *wr; char ch;
@@ -48,22 +75,47 @@ struct PipeBuf : public std::streambuf {
   std::streamsize xsputn(const char *s, std::streamsize n) override { if (wr) wr->write(s, (size_t)n); return n; }
 };
 
-// Run two parties A and B connected by a pair of pipes.  Each gets an
-// iostream (used as both `in` and `out`).  Seeds give each thread its own
-// library random stream.  Returns after both finished.
+// Two parties A and B connected by a pair of pipes; each gets one iostream used as both `in` and `out`.
 struct Duplex {
-  Pipe a2b, b2a;
+  Pipe a2b, b2a; Monitor mon;
   bool a_threw = false, b_threw = false; std::string a_what, b_what;
   void run(uint64_t seedA, uint64_t seedB, std::function<void(std::iostream &)> fa, std::function<void(std::iostream &)> fb) {
+    mon.pipes = {&a2b, &b2a}; a2b.mon = b2a.mon = &mon; mon.alive = 2;
     std::thread ta([&] { rng_seed(seedA); PipeBuf buf(&b2a, &a2b); std::iostream io(&buf);
       try { fa(io); } catch (std::exception &e) { a_threw = true; a_what = e.what(); } catch (...) { a_threw = true; a_what = "?"; }
-      a2b.close(); });
+      mon.alive--; a2b.close(); });
     std::thread tb([&] { rng_seed(seedB); PipeBuf buf(&a2b, &b2a); std::iostream io(&buf);
       try { fb(io); } catch (std::exception &e) { b_threw = true; b_what = e.what(); } catch (...) { b_threw = true; b_what = "?"; }
-      b2a.close(); });
+      mon.alive--; b2a.close(); });
     ta.join(); tb.join();
   }
   bool stalled() const { return a2b.stalled || b2a.stalled; }
+};
+
+// Prover <-> relay <-> verifier.  The relay forwards complete lines; lines from
+// the prover to the verifier pass through `hook(lineno, line)` which returns
+// 0 = forward (possibly modified), 1 = drop, 2 = forward twice, 3 = close the link here.
+struct Relay {
+  Pipe p2r, r2v, v2r, r2p; Monitor mon;
+  bool p_threw = false, v_threw = false; std::string p_what, v_what;
+  std::vector<std::string> p_lines, v_lines; // transcript as seen by the relay (before modification)
+  static bool read_line(Pipe &p, std::string &line) { line.clear(); for (;;) { int c = p.get(); if (c < 0) return !line.empty(); if (c == '\n') return true; line.push_back((char)c); } }
+  void run(uint64_t seedP, uint64_t seedV, std::function<void(std::iostream &)> fp, std::function<void(std::iostream &)> fv,
+           std::function<int(size_t, std::string &)> hook) {
+    mon.pipes = {&p2r, &r2v, &v2r, &r2p}; p2r.mon = r2v.mon = v2r.mon = r2p.mon = &mon; mon.alive = 4;
+    std::thread tp([&] { rng_seed(seedP); PipeBuf buf(&r2p, &p2r); std::iostream io(&buf);
+      try { fp(io); } catch (std::exception &e) { p_threw = true; p_what = e.what(); } catch (...) { p_threw = true; p_what = "?"; }
+      mon.alive--; p2r.close(); });
+    std::thread tv([&] { rng_seed(seedV); PipeBuf buf(&r2v, &v2r); std::iostream io(&buf);
+      try { fv(io); } catch (std::exception &e) { v_threw = true; v_what = e.what(); } catch (...) { v_threw = true; v_what = "?"; }
+      mon.alive--; v2r.close(); });
+    std::thread f1([&] { std::string l; size_t n = 0; while (read_line(p2r, l)) { p_lines.push_back(l); int a = hook ? hook(n, l) : 0; n++;
+        if (a == 3) break; if (a == 1) continue; l.push_back('\n'); r2v.write(l.data(), l.size()); if (a == 2) r2v.write(l.data(), l.size()); }
+      mon.alive--; r2v.close(); });
+    std::thread f2([&] { std::string l; while (read_line(v2r, l)) { v_lines.push_back(l); l.push_back('\n'); r2p.write(l.data(), l.size()); } mon.alive--; r2p.close(); });
+    tp.join(); tv.join(); p2r.close(); v2r.close(); f1.join(); f2.join();
+  }
+  bool stalled() const { return p2r.stalled || r2v.stalled || v2r.stalled || r2p.stalled; }
 };
 
 } // namespace vf
